@@ -20,7 +20,7 @@ class Result:
         self.timed_out, self.cpu_exceeded, self.errclass = timed_out, cpu_exceeded, errclass
 
 
-CPP_ERR_CLASSES = ["Invalid read of size", "Invalid write of size", "uninitialised value", "Unexpected end of stream", "not completely read", "Invalid union index", "bad_alloc",
+CPP_ERR_CLASSES = ["Invalid read of size", "Invalid write of size", "uninitialised value", "uninitialised byte", "Unexpected end of stream", "not completely read", "Invalid union index", "bad_alloc",
                    "does not match any version", "Invalid magic", "Unsupported", "Expected to call", "json",
                    "schema", "AddressSanitizer", "runtime error:", "Assertion"]
 
